@@ -26,12 +26,13 @@ type Trace struct {
 	Index    int    `json:"index,omitempty"`
 	Family   string `json:"family,omitempty"`
 
-	W     *scen.WScen   `json:"w,omitempty"`
-	W2    *scen.WScen   `json:"w2,omitempty"`
-	R     *scen.RScen   `json:"r,omitempty"`
-	Rs    []*scen.RScen `json:"rs,omitempty"`
-	Pipe  *PipeScen     `json:"pipe,omitempty"`
-	Multi *MultiScen    `json:"multi,omitempty"`
+	W     *scen.WScen    `json:"w,omitempty"`
+	W2    *scen.WScen    `json:"w2,omitempty"`
+	R     *scen.RScen    `json:"r,omitempty"`
+	Rs    []*scen.RScen  `json:"rs,omitempty"`
+	Pipe  *PipeScen      `json:"pipe,omitempty"`
+	Multi *MultiScen     `json:"multi,omitempty"`
+	Sched kern.SchedSpec `json:"sched,omitempty"`
 	// Sweep asks the executor to enumerate the fault dimension of the property
 	// (every sink call k, every source byte k, every truncation / bit flip)
 	// around this workload; a violating sub-run is reported as a concrete
